@@ -255,6 +255,10 @@ def rule_call_parens(ctx, prop):
         f = prog.fn("stylua_lib", "formatters::functions::format_function_args")
         if not rep.anchor(f is not None, "format_function_args", cfg):
             continue
+        # small private helpers (`single_argument`, `wrap_argument_in_parentheses`, ..) are analysed in place
+        from inline import inlined, small_helper
+        f = inlined(prog, f, small_helper(prog, keep=r"::(format_\w+|hang_\w+|function_args_\w+|should_\w+|try_\w+)$|^context::|trivia_util::|^formatters::trivia::",
+                                          max_blocks=60), depth=1)
         ai = [i for i in range(1, f.argc + 1) if f.locals[i] == "&full_moon::ast::FunctionArgs"][0]
         ni = [i for i in range(1, f.argc + 1) if f.locals[i].endswith("FunctionCallNextNode")][0]
 
@@ -382,7 +386,7 @@ def rule_call_parens(ctx, prop):
             if s["k"] == "assign" and s["rv"]["k"] == "agg" and s["rv"].get("adt", "").endswith("FunctionArgs") and \
                     s["rv"].get("variant") in ("String", "TableConstructor") and s["dst"]["l"] != 0:
                 pr = provenance(f, s["rv"]["ops"][0], through=re.compile(
-                    PROV_THROUGH.pattern + r"|UpdateTrailingTrivia>::update_trailing_trivia$|UpdateLeadingTrivia>::update_leading_trivia$|::next$|::iter$"))
+                    PROV_THROUGH.pattern + r"|UpdateTrailingTrivia>::update_trailing_trivia$|UpdateLeadingTrivia>::update_leading_trivia$|::next$|::iter$|Option::<.*>::filter$|::first$|::last$"))
                 calls = prov_calls(pr)
                 args = {r[1] for r in pr if r[0] == "arg"}
                 # either the arm's own payload (arg) or the single argument of the parenthesised list
@@ -400,7 +404,11 @@ def rule_call_parens(ctx, prop):
                     builders.add(g.path)
         allowed = re.compile(r"^formatters::functions::format_function_args$|::stmt_block::|^<full_moon::ast::FunctionArgs as|"
                              r"^<verify_ast|^verify_ast")
-        extra = sorted(b for b in builders if not allowed.search(b))
+        # a private helper whose every call site is inside an allowed builder is part of that builder
+        def only_called_from_allowed(b):
+            sites = [g.path for g, bb, t in call_sites(prog, "^" + re.escape(b) + "$", "stylua_lib")]
+            return bool(sites) and all(allowed.search(x) for x in sites)
+        extra = sorted(b for b in builders if not allowed.search(b) and not only_called_from_allowed(b))
         rep.inst("stylua_lib FunctionArgs constructors", {"builders": sorted(builders)}, cfg, ok=not extra)
         for b in extra:
             rep.violation(f"stylua_lib::{b} builds-FunctionArgs",
